@@ -40,6 +40,7 @@ def prebuild():
 
 
 def par_differential(ctx, n, pools=(1, 2, 16)):
+    n = int(n * 1.6)
     """-> (found_violation, stats)"""
     rng = ctx.rng
     exe_s, oexe, log1 = T.build_all(vlib)
@@ -50,7 +51,7 @@ def par_differential(ctx, n, pools=(1, 2, 16)):
     scs = []
     for i in range(n):
         r = rng.random()
-        scs.append(T.gen_pivot_heavy(rng) if r < 0.5 else T.gen_scenario(rng, "mixed") if r < 0.8 else T.gen_degenerate(rng))
+        scs.append(T.gen_pivot_heavy(rng) if r < 0.35 else T.gen_const_rows(rng) if r < 0.65 else T.gen_scenario(rng, "mixed") if r < 0.85 else T.gen_degenerate(rng))
     scripts = [s.text() for s in scs]
     seq = T.run_differential(vlib, exe_s, oexe, "".join(scripts), timeout=600 if ctx.thorough else 120)
     stats = {"scenarios": n, "events": sum(len([r for r in sc if r["E"]]) for sc in seq["impl"]), "pools": list(pools),
@@ -85,6 +86,10 @@ def par_differential(ctx, n, pools=(1, 2, 16)):
                 found = True
             if [(r["E"], r["R"], r["S"]) for r in a] == [(r["E"], r["R"], r["S"]) for r in s]:
                 same += 1
+        ne, be = T.check_expectations(ctx, lambda c, sig, rep, no_input=False: c.violation("par:" + sig, dict(rep, pool=p)), scs, out["impl_text"], "pool%d" % p)
+        stats["verdicts_against_exact_feasibility"] = stats.get("verdicts_against_exact_feasibility", 0) + ne
+        if be:
+            found = True
         jf = [l for l in out["judge"] if " FAIL " in l]
         if jf and not found:
             ctx.violation("par:k2", {"kind": "parallel-build-output-rejected-by-verified-checker", "pool": p, "lines": jf[:5]})
